@@ -8,6 +8,7 @@ import random
 import shutil
 
 import c05 as vdi
+import c07_resolve as rsv
 import core
 import gen_hdd
 import gen_qcow2
@@ -23,9 +24,14 @@ RULE = ("five families, real temp directories on the implementation side. vhdx: 
         "plain roots, XML order shuffled, moved directories). qcow2: backing chains (raw / qcow2, shorter / longer), internal "
         "snapshots read after the active image has been read (history), missing backing. vdi: parent chains. vmdk: delta descriptors "
         "over a parent descriptor (hint: same directory, sibling directory, Windows-style path, missing). Non-trivial = depth ≥ 2 and "
-        "(for content families) a request that crosses an allocation-unit boundary; distinct recipe hash.")
-ASSUMPTIONS = ["pathlib / os existence tests on the implementation side; the model receives the resolved chain explicitly and only checks "
-               "that a required parent that is absent is an error", "dissect.util AlignedStream as transcribed", "copy.copy semantics for QCow2Snapshot.open (buffer reset modelled by a fresh stream)"]
+        "(for content families) a request that crosses an allocation-unit boundary; distinct recipe hash. Resolution layouts (c07_resolve.py): "
+        "rx = VHDX parent locators (first / second key, table order, stale or unusable first key, missing keys, drive letters, case, `..` through a "
+        "missing directory, cycles, three directories deep), rh = Parallels .hdd directories (relative / absolute image names, the three fall-back "
+        "places and their precedence, opening through a file of the directory, explicit snapshot GUID, missing / cyclic / duplicated shots, absent "
+        "image or descriptor), rq = QCOW2 backing names (relative / absolute, no handle / opt-out / another handle); the paths the real code opens "
+        "(audit hook) are compared with the paths the model opens and with the placement the generator intended.")
+ASSUMPTIONS = ["content families: pathlib / os existence tests on the implementation side, the model receives the resolved chain; resolution families (rx / rh / rq): "
+               "the directory tree is modelled (Hv/Resolve.lean: PurePosixPath, kernel path walk without symbolic links, `//x` = `/x`), Python's recursion limit is a fuel of 64", "dissect.util AlignedStream as transcribed", "copy.copy semantics for QCow2Snapshot.open (buffer reset modelled by a fresh stream)"]
 TIMEOUT_CASE = 60.0
 
 
@@ -137,6 +143,8 @@ def generate(seed, tier):
         pts = sorted(set(gen_vmdk.extent_points(r["child"])) | set(t.base.points()))
         qs = [["o", o, l] for o, l in gen_vmdk.gen_queries(rng, t.size, pts, 8 if tier == "quick" else 14)]
         cases.append({"id": f"m{i}", "fam": "vmdk", "recipe": r, "align": rng.choice([8192] * 4 + [512, 65536]), "queries": qs})
+    # parent / chain resolution on directory layouts (model: lean/Hv/Resolve.lean through the `resolve.*` driver commands)
+    cases += rsv.generate(random.Random(f"C07res/{seed}/{tier}"), tier)
     return cases
 
 
@@ -149,6 +157,8 @@ def group_by_env(cases):
 
 def build(case):
     fam, r = case["fam"], case["recipe"]
+    if fam in rsv.BUILD:
+        return rsv.BUILD[fam](case, tmpdir_for(case))
     if fam == "vhdx":
         t = gen_vhdx.Truth(r, absdir=tmpdir_for(case))
         names = t.names()
@@ -210,6 +220,14 @@ def build(case):
 
 def impl_run(case, built):
     fam, r = case["fam"], case["recipe"]
+    if fam in rsv.IMPL:
+        d = tmpdir_for(case)
+        shutil.rmtree(d, ignore_errors=True)
+        os.makedirs(d)
+        try:
+            return rsv.IMPL[fam](case, built, d)
+        finally:
+            shutil.rmtree(d, ignore_errors=True)
     if fam == "vdi":
         return vdi.impl_run(case, built)
     if fam == "qcow2":
@@ -274,6 +292,8 @@ def impl_run(case, built):
 
 def model_lines(case, built):
     fam, r, a = case["fam"], case["recipe"], case["align"]
+    if fam in rsv.LINES:
+        return rsv.LINES[fam](case, built, tmpdir_for(case))
     toks = " ".join(core.op_tokens(case["queries"]))
     if fam == "vdi":
         return vdi.model_lines(case, built)
@@ -319,6 +339,8 @@ def model_lines(case, built):
 
 def model_parse(case, built, out):
     fam = case["fam"]
+    if fam in rsv.PARSE:
+        return rsv.PARSE[fam](case, built, out)
     if fam == "vdi":
         return vdi.model_parse(case, built, out)
     if fam == "qcow2" and not case.get("missing"):
